@@ -23,6 +23,9 @@ Rule(r) == [any |-> r.any, subnets |-> r.subnets, unix |-> r.unix, perms |-> Set
 NoTtl(r) == <<r[1], r[2], r[3], r[6], r[7]>>
 TtlLe(a, b) == a[4] < b[4] \/ (a[4] = b[4] /\ a[5] <= b[5])
 SameRecs(a, b, exactTtl) == Len(a) = Len(b) /\ \A i \in 1..Len(a) : NoTtl(a[i]) = NoTtl(b[i]) /\ TtlLe(a[i], b[i]) /\ (exactTtl => a[i] = b[i])
+\* the answer of a reply: the upstream's answer section, or -- when the reply is truncated (TC) -- a prefix of it
+OwnAnswer(r, S) == IF r.tc = 1 THEN Len(r.an) <= Len(S.an) /\ SameRecs(r.an, SubSeq(S.an, 1, Len(r.an)), FALSE)
+                   ELSE SameRecs(r.an, S.an, FALSE)
 
 \* judgement of one query at the end of its case
 Judge(q) ==
@@ -54,21 +57,30 @@ Judge(q) ==
                     ELSE IF fwd /\ U = {} THEN "forwardRouteNotTaken"
                     ELSE "outcomeDiffersFromLongestSuffixRoute"
         \* --- C07: exactly one reply, its own, from where it was sent, in bounded time
-        answering == fwd /\ allowed /\ s.upkind \notin {"silent"} /\ s.drops < 4
+        \* a hang-up fails everybody waiting on that connection (DnsForward!TcpTeardown, the set `hurt`): queries that were
+        \* outstanding when an upstream they are routed to hung up may get a server failure though their own answer was fine
+        hurt == \E u \in urecv : /\ u.proto = "close" /\ (\E o \in outs : o.kind = "forward" /\ o.up = u.up)
+                                  /\ s.t <= u.nth + 2 /\ (Len(R) = 0 \/ u.nth <= first.t + 2)
+        answering == fwd /\ allowed /\ s.upkind \notin {"silent", "close"} /\ s.drops < 4 /\ ~hurt
+        \* a REFUSED that the upstream gave is relayed as REFUSED, and REFUSED replies are rate limited per client address
+        \* (C16): such a query may stay without a reply -- by design, not a lost reply
+        refusedUpstream == fwd /\ hasS /\ S.rcode = 5
         c07 == (allowed /\ \E o \in outs : o.kind \in {"forward", "nxdomain", "servfail"}) =>
-                 /\ Len(R) = 1
-                 /\ first.from_ok /\ first.id = s.id /\ first.qd = s.qd /\ first.qr = 1
-                 /\ first.t - s.t <= 60000
-                 /\ (answering /\ hasS => first.rcode = S.rcode /\ SameRecs(first.an, S.an, FALSE))
-                 /\ (answering /\ first.rcode = 2 => hasS /\ S.rcode = 2)       \* no failure without an upstream fault
-                 /\ (fwd /\ s.upkind = "silent" => first.rcode = 2)
-                 /\ Cardinality({u \in U : u.proto = "udp"}) <= 5
-        c07shape == IF Len(R) = 0 THEN (IF s.listener = "v4" /\ s.proto = "udp" THEN "noReplyOnIpv4OnlyUdpListener" ELSE "noReply")
+                 \/ (refusedUpstream /\ Len(R) = 0)
+                 \/ /\ Len(R) = 1
+                    /\ first.from_ok /\ first.id = s.id /\ first.qd = s.qd /\ first.qr = 1
+                    /\ first.t - s.t <= 60000
+                    /\ (answering /\ hasS => first.rcode = S.rcode /\ OwnAnswer(first, S))
+                    /\ (answering /\ first.rcode = 2 => hasS /\ S.rcode = 2)       \* no failure without an upstream fault
+                    /\ (fwd /\ s.upkind \in {"silent", "close"} => first.rcode = 2)       \* silence, or the upstream hanging up: a server failure
+                    /\ Cardinality({u \in U : u.proto = "udp"}) <= 5
+        c07shape == IF Len(R) = 0 THEN (IF s.listener = "v4" /\ s.proto = "udp" THEN "noReplyOnIpv4OnlyUdpListener"
+                                        ELSE IF s.pipelined THEN "noReplyToQueryOnSharedOrSegmentedTcpConnection" ELSE "noReply")
                     ELSE IF Len(R) > 1 THEN "moreThanOneReply"
                     ELSE IF ~first.from_ok THEN "replyFromOtherAddressThanQueried"
                     ELSE IF first.id # s.id \/ first.qd # s.qd THEN "replyIsNotForThisQuery"
                     ELSE IF answering /\ first.rcode = 2 /\ ~(hasS /\ S.rcode = 2) THEN (IF s.forced THEN "serverFailureAfterUpstreamTcpIdCollision" ELSE "serverFailureThoughUpstreamAnswered")
-                    ELSE IF answering /\ hasS /\ ~SameRecs(first.an, S.an, FALSE) THEN "answerOfAnotherQuestion"
+                    ELSE IF answering /\ hasS /\ ~OwnAnswer(first, S) THEN "answerOfAnotherQuestion"
                     ELSE IF Cardinality({u \in U : u.proto = "udp"}) > 5 THEN "tooManyTransmissions" ELSE "replyLateOrWrongFailureCode"
         \* --- C03: what was relayed is what the upstream said
         relayed == fwd /\ allowed /\ Len(R) >= 1 /\ hasS /\ first.rcode = S.rcode /\ first.tc = 0 /\ (S.rcode # 2)
@@ -80,7 +92,9 @@ Judge(q) ==
                     ELSE IF ~SameRecs(first.ar, S.ar, FALSE) THEN "additionalSectionDiffers" ELSE "ttlChangedOnUncachedAnswer"
         \* --- C04: every response well-formed and within the limit of its transport
         limit == IF s.proto = "udp" THEN Max2(512, s.adv) ELSE 65535
-        full(r) == hasS /\ Len(r.an) >= Len(S.an) /\ Len(r.ns) >= Len(S.ns) /\ Len(r.ar) >= Len(S.ar)      \* nothing omitted
+        \* nothing omitted: every record the upstream gave, and the OPT record a query with EDNS is owed (it is the last
+        \* record of the message, so it is the first to go when the answer does not fit)
+        full(r) == hasS /\ Len(r.an) >= Len(S.an) /\ Len(r.ns) >= Len(S.ns) /\ Len(r.ar) >= Len(S.ar) /\ (s.edns => r.opt >= 1)
         relayedAny(r) == fwd /\ allowed /\ hasS /\ r.rcode = S.rcode /\ S.rcode # 2
         c04one(r) == /\ r.parse_ok /\ r.len <= limit
                      /\ (relayedAny(r) => ((r.tc = 1) <=> ~full(r)))
@@ -109,7 +123,7 @@ Step ==
               /\ stats' = [stats EXCEPT !.cases = @ + 1] /\ UNCHANGED viol
          [] e.ev = "csend" ->
               /\ sent' = Put(sent, e.q, [line |-> l, t |-> e.t, id |-> e.id, qd |-> e.qd, tok |-> e.tok, name |-> e.name, rd |-> e.rd,
-                                         client |-> e.client, listener |-> e.listener, proto |-> e.proto, adv |-> e.adv,
+                                         client |-> e.client, listener |-> e.listener, proto |-> e.proto, adv |-> e.adv, edns |-> e.edns, pipelined |-> e.pipelined,
                                          upkind |-> e.upkind, drops |-> e.drops, cached |-> e.cached, mixedcase |-> e.mixedcase, forced |-> ctx.forced])
               /\ stats' = [stats EXCEPT !.queries = @ + 1, !.tcp = @ + (IF e.proto = "tcp" THEN 1 ELSE 0)]
               /\ UNCHANGED <<ctx, got, none, urecv, usent, viol>>
@@ -121,7 +135,11 @@ Step ==
          [] e.ev = "urecv" ->
               /\ urecv' = urecv \cup {[tok |-> e.tok, up |-> e.up, proto |-> e.proto, nth |-> e.nth]}
               /\ stats' = [stats EXCEPT !.urecv = @ + 1] /\ UNCHANGED <<ctx, sent, got, none, usent, viol>>
-         [] e.ev = "usend" /\ e.kind \notin {"drop", "reordered"} /\ e.kind # "tc" ->
+         [] e.ev = "usend" /\ e.kind \in {"close", "halfclose"} ->
+              \* the upstream hung up on its TCP connection at time e.t (kept with the upstream records, proto "close")
+              /\ urecv' = urecv \cup {[tok |-> "(hangup)", up |-> e.up, proto |-> "close", nth |-> e.t]}
+              /\ UNCHANGED <<ctx, sent, got, none, usent, viol, stats>>
+         [] e.ev = "usend" /\ e.kind \notin {"drop", "reordered", "close", "halfclose", "raw"} /\ e.kind # "tc" ->
               /\ usent' = Put(usent, e.tok, [rcode |-> e.rcode, an |-> e.an, ns |-> e.ns, ar |-> e.ar, len |-> e.len])
               /\ UNCHANGED <<ctx, sent, got, none, urecv, viol, stats>>
          [] e.ev = "endcase" ->
